@@ -226,6 +226,8 @@ def fmt(t, depth=0):
         return "%s(%s)" % (re.sub(r"<[^<>]*>", "", t[1]).split("::")[-1], ", ".join(f(x) for x in t[2]))
     if k == "payload":
         return "%s!%s%s" % (f(t[1]), t[2], ("." + str(t[3])) if t[3] else "")
+    if k == "concat":
+        return "concat(%s)" % ", ".join(repr(p_[1]) if p_[0] == "lit" else f(p_[1]) for p_ in t[1])
     if k == "at":
         return "%s[%s]" % (f(t[1]), t[2])
     if k == "stream":
@@ -373,7 +375,7 @@ IDENTITY_FNS = re.compile(
     r"(^|::)(core::convert::(Into|From|AsRef|AsMut)(<.*>)?(>)?::(into|from|as_ref|as_mut)|core::clone::Clone::clone|alloc::borrow::ToOwned::to_owned|alloc::string::ToString::to_string"
     r"|core::ops::deref::Deref(Mut)?::deref(_mut)?|core::borrow::Borrow(Mut)?(<.*>)?(>)?::borrow(_mut)?|alloc::boxed::Box::new|alloc::boxed::box_new|alloc::slice::<impl \[T\]>::(into_vec|to_vec)"
     r"|core::iter::traits::collect::IntoIterator::into_iter|core::future::into_future::IntoFuture::into_future|core::pin::Pin::new(_unchecked)?|alloc::boxed::Box::pin"
-    r"|core::ops::try_trait::Try::from_output_DISABLED)$")
+    r"|core::hint::must_use|core::ops::try_trait::Try::from_output_DISABLED)$")
 
 
 class Evaluator:
@@ -1341,6 +1343,34 @@ class Evaluator:
                 m = re.match(r"^\[.*;\s*(\d+)(?:_?usize)?\]$", t_.strip())
                 if m:
                     return V("Ok", (list(a0),)) if len(a0) == int(m.group(1)) else V("Err", (a0,))
+        # format_args!/format!: the formatted text as a structured term ("concat", pieces) — `format!("{}.{}", a, b)` and
+        # `[a, b].join(".")` denote the same term.  The Arguments::new call is still recorded (rules read templates from it).
+        if re.search(r"fmt::Arguments::(new|new_v1|new_const)$", base) and args and isinstance(a0, list) and all(isinstance(b_, int) for b_ in a0):
+            from c08 import decode_fmt
+            argv = args[1] if len(args) > 1 and isinstance(args[1], list) else []
+            pieces, k_ = [], 0
+            for pc in decode_fmt(a0):
+                if pc[0] == "arg":
+                    x_ = term(argv[k_]) if k_ < len(argv) else ("?",)
+                    k_ += 1
+                    if isinstance(x_, tuple) and x_[:1] == ("call",) and len(x_[2]) == 1 and re.search(r"Argument::new_\w+$", x_[1]):
+                        x_ = x_[2][0]
+                    pieces.append(("lit", x_[1]) if isinstance(x_, tuple) and x_[:1] == ("lit",) and isinstance(x_[1], str) else ("arg", x_))
+                else:
+                    pieces.append(pc)
+            r_ = St("core::fmt::Arguments", {"pieces": pieces})
+            self.path.events.append(Event("call", fn, list(args), Sym(("call", fn, tuple(term(a) for a in args))), node.get("sp") if node else None, name=name))
+            return r_
+        if (base.endswith("fmt::format") or base.endswith("fmt::format::format_inner")) and isinstance(a0, St) and a0.ty == "core::fmt::Arguments":
+            return Sym(("concat", tuple(a0.f["pieces"])))
+        if name == "join" and len(args) == 2 and isinstance(a0, list) and isinstance(args[1], str) and not isinstance(args[1], Sym) and ("slice" in base or "[T]" in base or "Join" in base or "str" in base):
+            pieces = []
+            for k_, x in enumerate(a0):
+                if k_ and args[1] != "":
+                    pieces.append(("lit", args[1]))
+                tx = term(x)
+                pieces.append(("lit", tx[1]) if isinstance(tx, tuple) and tx[:1] == ("lit",) and isinstance(tx[1], str) else ("arg", tx))
+            return Sym(("concat", tuple(pieces)))
         if base.startswith("core::panicking::") or base.startswith("std::panicking::") or base in ("std::rt::begin_panic", "core::option::unwrap_failed", "core::result::unwrap_failed", "core::option::expect_failed"):
             self.path.events.append(Event("panic", fn, list(args), None, node.get("sp") if node else None, name=name))
             raise Panic(name)       # panic!/unreachable!/unimplemented!/assert! failure
